@@ -407,6 +407,13 @@ func (w *WS) Send(unit []byte) error {
 	return nil
 }
 
+// AdoptWS wraps a connection on which the websocket upgrade has already been completed by the caller.
+func AdoptWS(c net.Conn, br *bufio.Reader) *WS {
+	w := &WS{collector: newCollector(), c: c}
+	go w.readLoop(br)
+	return w
+}
+
 // Pause makes the client stop reading from its socket (true) or resume (false).
 func (w *WS) Pause(p bool) { w.paused.Store(p) }
 
